@@ -254,7 +254,7 @@ func runEsOnce(in sx.Tree) esRun {
 	res := esRun{}
 	accepted := []int64{}
 	// quiescence: every accepted document has an answer and no bulk request is in flight
-	budget := 700*time.Millisecond + W + time.Duration(lates)*1200*time.Millisecond
+	budget := 1200*time.Millisecond + W + time.Duration(lates)*1200*time.Millisecond
 	if wholes > 0 {
 		backoff := time.Duration(0)
 		for i := 0; i < wholes; i++ {
@@ -370,7 +370,12 @@ func runEsOnce(in sx.Tree) esRun {
 		accepted = accepted[:len(accepted)-pending]
 		pause()
 	}
-	time.Sleep(30 * time.Millisecond) // late duplicates show up here
+	settle := 30 * time.Millisecond // duplicates show up here
+	if lates > 0 {
+		// a request-level error after a handled response would re-send the batch after the first back-off (5 s)
+		settle = 5600 * time.Millisecond
+	}
+	time.Sleep(settle)
 	w.mu.Lock()
 	defer w.mu.Unlock()
 	ans := []sx.Tree{}
@@ -424,7 +429,7 @@ func GenEs(r *sx.Rng, idx int) sx.Tree {
 	}
 	ops := []sx.Tree{}
 	script := []sx.Tree{}
-	wantLate := idx%40 == 7
+	wantLate := idx%89 == 7 // period coprime to the shard count: late cases (6.6 s each) spread over the shards
 	wantWhole := idx >= 1000 && idx%50 == 3
 	pauses := 0
 	for i := 0; i < nops; i++ {
